@@ -183,9 +183,11 @@ Definition chroot_cwd (f : fs) (rootino : N) (p : bytes) : bytes + errno :=
 (* the absolute clean path with components cs: "/" ++ c1 ++ "/" ++ ... ++ cn *)
 Definition render (cs : list bytes) : bytes := sep :: joinc cs.
 
-(* a path component that is a name: non-empty, no separator, neither "." nor ".." *)
-Definition name_ok (x : bytes) : bool :=
+(* a path component that is lexically a name: non-empty, no separator, neither "." nor ".." *)
+Definition lex_name_ok (x : bytes) : bool :=
   nonempty x && negb (bytes_eqb x s_dot) && negb (bytes_eqb x s_dotdot) && forallb (fun b => negb (N.eqb b sep)) x.
+(* ... and without NUL byte (a string with a NUL never reaches the kernel: EINVAL) *)
+Definition name_ok (x : bytes) : bool := lex_name_ok x && negb (has_nul x).
 
 (* Symlink-free lookup of the names [cs] from directory [cur]: never consults the process
    root, never follows anything.  [PLink] = a symlink was met at a non-final position or,
